@@ -13,7 +13,10 @@ Oracle: the text of the property as predicates over the two parties' logs (no mo
 from __future__ import annotations
 
 import gc
+import os
+import socket
 import ssl
+import threading
 import warnings
 
 from ..core import Prop, Failure, enc, enc_pairs
@@ -86,6 +89,271 @@ def cls_name(e):
         return f"ProxyError({on})"
     return n
 
+# ---------------------------------------------------------------- loopback recording proxy, real TLS
+
+REAL_HOSTS = ["o.example", "O.Example", "b.example", "o.example.", "[::1]", "10.0.0.5"]
+_PKI = {}
+
+
+def pki():
+    """one CA (trusted by the client), one foreign CA, certificates for the proxy and the origins"""
+    if not _PKI:
+        import trustme
+        from ..core import WORK
+        d = os.path.join(WORK, f"c09-pki-{os.getpid()}")
+        os.makedirs(d, exist_ok=True)
+        ca, other = trustme.CA(), trustme.CA()
+        ca_pem = os.path.join(d, "ca.pem")
+        ca.cert_pem.write_to_path(ca_pem)
+
+        def ctx(cert):
+            c = ssl.SSLContext(ssl.PROTOCOL_TLS_SERVER)
+            cert.configure_cert(c)
+            return c
+        _PKI.update(ca_pem=ca_pem,
+                    proxy_good=lambda: ctx(ca.issue_cert("localhost")),
+                    proxy_bad=lambda: ctx(other.issue_cert("localhost")),
+                    origin_good=lambda: ctx(ca.issue_cert("o.example", "b.example", "::1", "10.0.0.5")),
+                    origin_bad=lambda: ctx(ca.issue_cert("wrong.example")))
+        for k in ("proxy_good", "proxy_bad", "origin_good", "origin_bad"):
+            _PKI[k] = _PKI[k]()
+    return _PKI
+
+
+class _NoLock:
+    def __enter__(self):
+        return self
+
+    def __exit__(self, *a):
+        return False
+
+
+_NOLOCK = _NoLock()
+
+
+class _Plain:
+    def __init__(self, sock):
+        self.sock = sock
+
+    def recv(self, n):
+        try:
+            return self.sock.recv(n)
+        except OSError:
+            return b""
+
+    def sendall(self, d):
+        self.sock.sendall(d)
+
+    def close(self):
+        try:
+            self.sock.close()
+        except OSError:
+            pass
+
+
+class _Bio:
+    """server side of a TLS session over any stream object (plain socket or another _Bio): what
+    makes TLS-in-TLS possible on the proxy's side"""
+
+    def __init__(self, lower, ctx):
+        self.lower = lower
+        self.inc, self.out = ssl.MemoryBIO(), ssl.MemoryBIO()
+        self.obj = ctx.wrap_bio(self.inc, self.out, server_side=True)
+
+    def _flush(self):
+        d = self.out.read()
+        if d:
+            self.lower.sendall(d)
+
+    def _call(self, fn, *a):
+        while True:
+            try:
+                r = fn(*a)
+            except ssl.SSLWantReadError:
+                self._flush()
+                d = self.lower.recv(65536)
+                if not d:
+                    self.inc.write_eof()
+                else:
+                    self.inc.write(d)
+                continue
+            except ssl.SSLError:
+                self._flush()
+                raise
+            self._flush()
+            return r
+
+    def do_handshake(self):
+        self._call(self.obj.do_handshake)
+
+    def recv(self, n):
+        try:
+            return self._call(self.obj.read, n)
+        except (ssl.SSLError, OSError):
+            return b""
+
+    def sendall(self, d):
+        self._call(self.obj.write, d)
+
+    def close(self):
+        try:
+            self.obj.unwrap()
+        except (ssl.SSLError, OSError):
+            pass
+        try:
+            self._flush()
+        except OSError:
+            pass
+        self.lower.close()
+
+
+class RealProxy:
+    """threaded loopback proxy (plain or TLS) that also plays every origin inside CONNECT"""
+
+    def __init__(self, https, script, reqs, cur, log, socks):
+        self.https, self.script, self.reqs, self.cur, self.log, self.socks = https, script, reqs, cur, log, socks
+        self.lock = threading.Lock()
+        self.tl = threading.local()
+        self.closed_evt = threading.Event()
+        self.lsock = socket.socket(socket.AF_INET, socket.SOCK_STREAM)
+        self.lsock.bind(("127.0.0.1", 0))
+        self.lsock.listen(16)
+        self.port = self.lsock.getsockname()[1]
+        self.nacc = 0
+        self.threads = []
+        self.stop = False
+        k = pki()
+        self.ctxs = {}
+        for name in ("proxy_good", "proxy_bad", "origin_good", "origin_bad"):
+            c = k[name]
+            c.sni_callback = self.sni_cb("proxy" if name.startswith("proxy") else "origin")
+            self.ctxs[name] = c
+        t = threading.Thread(target=self.accept_loop, daemon=True)
+        t.start()
+        self.threads.append(t)
+
+    def sc(self, sid):
+        return self.script[sid] if sid < len(self.script) else [True, 200, True]
+
+    def fact(self, sid):
+        return self.socks.setdefault(sid, {"connect": None, "connect_status": None, "proxy_tls": None,
+                                           "origin_tls": None, "closed": False, "requests": 0})
+
+    def emit(self, ev):
+        with self.lock:
+            self.log.append(ev)
+
+    def accept_loop(self):
+        while not self.stop:
+            try:
+                conn, _ = self.lsock.accept()
+            except OSError:
+                return
+            sid = self.nacc
+            self.nacc += 1
+            conn.settimeout(10)
+            self.fact(sid)
+            self.emit(("tcp", sid, "localhost", self.port))
+            t = threading.Thread(target=self.handle, args=(conn, sid), daemon=True)
+            t.start()
+            self.threads.append(t)
+
+    def sni_cb(self, layer):
+        def cb(sslobj, name, ctx):
+            sid = self.tl.sid
+            f = self.fact(sid)
+            rec = {"sni": name, "ok": False, "real": True}
+            if layer == "proxy":
+                f["proxy_tls"] = rec
+                self.emit(("tlsp", sid, name))
+            else:
+                f["origin_tls"] = rec
+                self.emit(("tlso", sid, name, self.https))
+        return cb
+
+    def handle(self, conn, sid):
+        self.tl.sid = sid
+        sc = self.sc(sid)
+        f = self.fact(sid)
+        stream = _Plain(conn)
+        try:
+            if self.https:
+                ctx = self.ctxs["proxy_good" if sc[0] else "proxy_bad"]
+                stream = _Bio(stream, ctx)
+                try:
+                    stream.do_handshake()
+                except (ssl.SSLError, OSError):
+                    return
+                if f["proxy_tls"] is None:           # no SNI extension (never for a DNS-named proxy)
+                    f["proxy_tls"] = {"sni": None, "ok": False, "real": True}
+                    self.emit(("tlsp", sid, None))
+                f["proxy_tls"]["ok"] = True
+            in_tunnel = False
+            buf = b""
+            from ..net import parse_request, http_response
+            while True:
+                req, buf = parse_request(buf)
+                if req is None:
+                    d = stream.recv(65536)
+                    if not d:
+                        return
+                    buf += d
+                    continue
+                if req.method == "CONNECT" and not in_tunnel:
+                    st = sc[1]
+                    f["connect"], f["connect_status"] = req.target, st
+                    self.emit(("connect", sid, req.target, list(req.headers)))
+                    if st == "g":
+                        stream.sendall(b"\x16\x03garbage\r\n\r\n")
+                        continue
+                    if st != 200:
+                        stream.sendall(http_response(st, [], b"", reason="Refused"))
+                        continue
+                    stream.sendall(b"HTTP/1.1 200 Connection established\r\n\r\n")
+                    ctx = self.ctxs["origin_good" if sc[2] else "origin_bad"]
+                    inner = _Bio(stream, ctx)
+                    before = f["origin_tls"]
+                    try:
+                        inner.do_handshake()
+                    except (ssl.SSLError, OSError):
+                        if f["origin_tls"] is before:
+                            f["origin_tls"] = {"sni": None, "ok": False, "real": True}
+                            self.emit(("tlso", sid, None, self.https))
+                        return
+                    if f["origin_tls"] is before:    # no SNI extension: IP-literal destination
+                        f["origin_tls"] = {"sni": None, "ok": False, "real": True}
+                        self.emit(("tlso", sid, None, self.https))
+                    f["origin_tls"]["ok"] = True
+                    stream = inner
+                    in_tunnel = True
+                    continue
+                f["requests"] += 1
+                self.emit(("req", sid, in_tunnel, req.method, req.target, list(req.headers)))
+                close = self.reqs[self.cur["i"]]["close"]
+                stream.sendall(http_response(200, [("Content-Type", "text/plain")], b"ok"))
+                if close:
+                    f["closed"] = True
+                    self.emit(("close", sid))
+                    stream.close()
+                    self.closed_evt.set()
+                    return
+        except (OSError, ssl.SSLError):
+            return
+        finally:
+            try:
+                conn.close()
+            except OSError:
+                pass
+
+    def shutdown(self):
+        self.stop = True
+        try:
+            self.lsock.close()
+        except OSError:
+            pass
+        for t in self.threads:
+            t.join(timeout=2)
+
 
 class C09(Prop):
     id = "C09"
@@ -99,10 +367,16 @@ class C09(Prop):
             "quick: full single-request table + random histories. Per request the event list [tcp, tls(proxy), CONNECT "
             "line+headers, tls(origin, SNI, tls_in_tls), request(form, headers), server close] and the outcome class "
             "are compared with U3.Proxy; connection_requires_http_tunnel is compared on its whole input table. "
+            "The same histories also run against a threaded loopback proxy with real TLS and TLS-in-TLS (trustme CA, "
+            "good / foreign-CA proxy certificate, good / wrong-name origin certificate, SNI recorded per layer): a slice "
+            "in the quick tier, the full single-request table and random histories in the thorough tier. "
             "non-trivial = a history with a tunnelled request or more than one request")
     assumptions = [
-        "TLS is the harness's fake layer: a handshake succeeds iff the scripted certificate verdict is ok; what is "
-        "checked is which name / context urllib3 hands to ssl_wrap_socket (OpenSSL's own verdicts are C07/C08's trusted base)",
+        "in-memory cases: TLS is the harness's fake layer (a handshake succeeds iff the scripted verdict is ok; what is "
+        "checked is which name / context urllib3 hands to ssl_wrap_socket); real-TLS cases: OpenSSL's verdict on a "
+        "certificate that names exactly the destinations (resp. a foreign name / CA) is taken as the verification",
+        "for an IP-literal destination no SNI exists on the wire; the name inside the tunnel is then observed through "
+        "the verdict only (certificate with that IP as subjectAltName)",
         "http.client of CPython 3.12.1 (set_tunnel/_tunnel/putrequest) is modelled, not verified",
         "URLs carry no userinfo, fragment or characters needing percent-encoding (those belong to C14/C15)",
         "the Host header of a request is compared with the model but is not part of C09's oracle (C15)",
@@ -111,6 +385,7 @@ class C09(Prop):
         "(the code raises ProtocolError there, not ProxyError)",
     ]
     trusted = ["harness/net.py (in-memory sockets, fake TLS, request parser of the recording proxy)",
+               "the threaded loopback proxy in harness/props/c09.py (ssl.MemoryBIO server side), trustme, OpenSSL",
                "CPython 3.12.1 http.client tunnel code as modelled in U3.Proxy"]
     time_budget = {"quick": 110, "thorough": 1100}
 
@@ -150,16 +425,31 @@ class C09(Prop):
                                 yield {"kind": "pair", "cfg": self.mk_cfg(ps, fwd, ph=2),
                                        "script": [[True, 200, True], [True, st, True], [True, 200, True]],
                                        "reqs": [self.mk_req(s, close=close), self.mk_req(s, path="/y", retries=retries)]}
+        # real TLS / TLS-in-TLS against the loopback recording proxy
+        verdicts = [(True, 200, True), (False, 200, True), (True, 407, True), (True, 200, False), (True, "g", True)]
+        for ps in ("http", "https"):
+            for fwd in (False, True):
+                for s in ("http", "https"):
+                    for h in (REAL_HOSTS if deep else ["o.example", "[::1]"]):
+                        for p in ((None, 8443) if deep else (None,)):
+                            for pc, st, oc in ([(a, b, c) for a in (True, False) for b in STATUSES for c in (True, False)]
+                                               if deep else verdicts):
+                                yield {"kind": "real", "cfg": self.mk_cfg(ps, fwd, phost="localhost", pport=None),
+                                       "script": [[pc, st, oc]], "reqs": [self.mk_req(s, h, p)]}
+        for _ in range(3000 if deep else 40):
+            yield self.rand_case(rng, deep, real=True)
         nrand = 40000 if deep else 5000
         for _ in range(nrand):
             yield self.rand_case(rng, deep)
 
-    def rand_case(self, rng, deep):
+    def rand_case(self, rng, deep, real=False):
         cfg = {"ps": rng.choice(["http", "https"]), "phost": rng.choice(PROXY_HOSTS),
                "pport": rng.choice([3128, None, 8080, 443, 80]), "fwd": rng.random() < 0.4,
                "ph": rng.choice(PROXY_HEADER_SETS), "mh": rng.choice(MGR_HEADER_SETS)}
+        if real:
+            cfg["phost"], cfg["pport"] = "localhost", None
         nreq = rng.randint(1, 6 if deep else 3)
-        hosts = rng.sample(HOSTS, rng.choice([1, 1, 2, 3]))
+        hosts = rng.sample(REAL_HOSTS if real else HOSTS, rng.choice([1, 1, 2, 3]))
         reqs = []
         for _ in range(nreq):
             s = rng.choice(["http", "https", "https"])
@@ -176,7 +466,7 @@ class C09(Prop):
                 script.append([True, 200, True])
             else:
                 script.append([rng.random() < 0.75, rng.choice(STATUSES + [200, 200]), rng.random() < 0.8])
-        return {"kind": "rand", "cfg": cfg, "script": script, "reqs": reqs}
+        return {"kind": "real" if real else "rand", "cfg": cfg, "script": script, "reqs": reqs}
 
     def shrink_candidates(self, case):
         if case.get("kind") == "table":
@@ -196,8 +486,15 @@ class C09(Prop):
                     yield dict(case, reqs=reqs[:i] + [dict(r, **{k: v})] + reqs[i + 1:])
         cfg = case["cfg"]
         for k, v in (("ph", [["Proxy-Authorization", "Basic abc"]]), ("mh", None), ("pport", 3128)):
-            if cfg[k] != v:
+            if cfg[k] != v and not (k == "pport" and case.get("kind") == "real"):
                 yield dict(case, cfg=dict(cfg, **{k: v}))
+
+    _ncases = 0
+
+    def _maybe_gc(self):
+        C09._ncases += 1
+        if C09._ncases % 200 == 0:
+            gc.collect()
 
     # ------------------------------------------------------------ the routing truth table
     def run_table(self, case, res):
@@ -232,11 +529,9 @@ class C09(Prop):
     def execute(self, case, res):
         if case.get("kind") == "table":
             return self.run_table(case, res)
+        if case.get("kind") == "real":
+            return self.execute_real(case, res)
         from ..net import Net, Server, http_response
-        import urllib3
-        from urllib3 import ProxyManager
-        from urllib3.connection import _get_default_user_agent
-        from urllib3.exceptions import MaxRetryError, HTTPError
 
         cfg, script, reqs = case["cfg"], case["script"], case["reqs"]
         pport = eff_proxy_port(cfg)
@@ -317,56 +612,94 @@ class C09(Prop):
         net.connect_hook = on_connect
         net.tls_hook = tls_hook
 
+        with warnings.catch_warnings():
+            warnings.simplefilter("ignore")
+            with net.installed(fake_tls=True):
+                lines, out = self.run_requests(case, res, cfg, pport, log, socks, cur, "/nonexistent/ca.pem", None)
+        self._maybe_gc()
+        return lines, out
+
+    def execute_real(self, case, res):
+        """the same history against the threaded loopback proxy with real TLS / TLS-in-TLS"""
+        cfg, script, reqs = dict(case["cfg"]), case["script"], case["reqs"]
+        log, socks, cur = [], {}, {"i": -1}
+        k = pki()
+        px = RealProxy(cfg["ps"] == "https", script, reqs, cur, log, socks)
+        cfg["phost"], cfg["pport"] = "localhost", px.port
+        case_view = dict(case, cfg=cfg)
+        try:
+            with warnings.catch_warnings():
+                warnings.simplefilter("ignore")
+                lines, out = self.run_requests(case_view, res, cfg, px.port, log, socks, cur, k["ca_pem"], px)
+        finally:
+            px.shutdown()
+        self._maybe_gc()
+        res.bump("real-tls cases")
+        return lines, out
+
+    def run_requests(self, case, res, cfg, pport, log, socks, cur, ca_certs, px):
+        from urllib3 import ProxyManager
+        from urllib3.connection import _get_default_user_agent
+        from urllib3.exceptions import MaxRetryError, HTTPError
+        script, reqs = case["script"], case["reqs"]
         ua = _get_default_user_agent()
         lines = [f"cfg {cfg['ps']} {enc(cfg['phost'])} {pport} {int(cfg['fwd'])} {enc_pairs(cfg['ph'])} "
                  f"{enc_pairs(cfg['mh'] or [])} {enc(ua)}",
                  "script " + (",".join(f"{int(a)}:{b}:{int(c)}" for a, b, c in script) if script else "-")]
         out = ["ok", "ok"]
         res.bump(f"cfg:{cfg['ps']}-proxy fwd={int(cfg['fwd'])}")
-
-        with warnings.catch_warnings():
-            warnings.simplefilter("ignore")
-            with net.installed(fake_tls=True):
-                proxy_url = f"{cfg['ps']}://{cfg['phost']}" + (f":{cfg['pport']}" if cfg["pport"] is not None else "")
-                kw = {}
-                if cfg["mh"] is not None:
-                    kw["headers"] = dict(map(tuple, cfg["mh"]))
-                pm = ProxyManager(proxy_url, proxy_headers=dict(map(tuple, cfg["ph"])),
-                                  use_forwarding_for_https=cfg["fwd"], ca_certs="/nonexistent/ca.pem", **kw)
+        proxy_url = f"{cfg['ps']}://{cfg['phost']}" + (f":{cfg['pport']}" if cfg["pport"] is not None else "")
+        kw = {}
+        if cfg["mh"] is not None:
+            kw["headers"] = dict(map(tuple, cfg["mh"]))
+        pm = ProxyManager(proxy_url, proxy_headers=dict(map(tuple, cfg["ph"])),
+                          use_forwarding_for_https=cfg["fwd"], ca_certs=ca_certs, **kw)
+        try:
+            for i, r in enumerate(reqs):
+                cur["i"] = i
+                del log[:]
+                if px is not None:
+                    px.closed_evt.clear()
+                url = f"{r['s']}://{r['h']}" + (f":{r['p']}" if r["p"] is not None else "") + r["path"]
+                ukw = {"retries": r["retries"]}
+                if r["hdrs"] is not None:
+                    ukw["headers"] = dict(map(tuple, r["hdrs"]))
+                if r["body"] is not None:
+                    ukw["body"] = b"d" * r["body"]
+                if px is not None:
+                    ukw["timeout"] = 10
+                exc = None
                 try:
-                    for i, r in enumerate(reqs):
-                        cur["i"] = i
-                        del log[:]
-                        url = f"{r['s']}://{r['h']}" + (f":{r['p']}" if r["p"] is not None else "") + r["path"]
-                        ukw = {"retries": r["retries"]}
-                        if r["hdrs"] is not None:
-                            ukw["headers"] = dict(map(tuple, r["hdrs"]))
-                        if r["body"] is not None:
-                            ukw["body"] = b"d" * r["body"]
-                        exc = None
-                        try:
-                            resp = pm.urlopen(r["m"], url, **ukw)
-                            outcome = "response" if resp.status == 200 and resp.data == b"ok" else f"response:{resp.status}"
-                        except MaxRetryError as e:
-                            exc = e
-                            outcome = "max:" + cls_name(e.reason)
-                        except HTTPError as e:
-                            exc = e
-                            outcome = "raise:" + cls_name(e)
-                        except Exception as e:       # a non-urllib3 exception: reported, never hidden
-                            exc = e
-                            outcome = "raise:!" + type(e).__name__
-                        lines.append(
-                            f"req {r['m']} {r['s']} {enc(r['h'])} {'~' if r['p'] is None else r['p']} {enc(r['path'])} "
-                            f"{'~' if r['hdrs'] is None else enc_pairs(r['hdrs'])} {'~' if r['body'] is None else r['body']} "
-                            f"{'F' if r['retries'] is False else r['retries']} {int(r['close'])}")
-                        out.append(" ".join(self.show(ev) for ev in log) + " => " + outcome)
-                        self.oracle(case, i, r, list(log), socks, outcome, exc, res)
-                        res.bump("outcome:" + outcome)
-                        res.bump(f"dest:{r['s']} tunnel={int(tunnel_expected(cfg, r))}")
-                finally:
-                    pm.clear()
-        gc.collect()
+                    resp = pm.urlopen(r["m"], url, **ukw)
+                    outcome = "response" if resp.status == 200 and resp.data == b"ok" else f"response:{resp.status}"
+                except MaxRetryError as e:
+                    exc = e
+                    outcome = "max:" + cls_name(e.reason)
+                except HTTPError as e:
+                    exc = e
+                    outcome = "raise:" + cls_name(e)
+                except Exception as e:       # a non-urllib3 exception: reported, never hidden
+                    exc = e
+                    outcome = "raise:!" + type(e).__name__
+                if px is not None and r["close"] and outcome == "response":
+                    px.closed_evt.wait(5)       # the FIN is on the client's socket once close() returned
+                with (px.lock if px is not None else _NOLOCK):
+                    evs = list(log)
+                if px is not None:
+                    # OpenSSL sends no SNI for an IP literal: the name is then only visible through the
+                    # verdict (the origin's certificate carries exactly the destination's IP)
+                    ip = exp_name(r) if (exp_host(r).startswith("[") or exp_host(r)[0].isdigit()) else None
+                    evs = [(e[0], e[1], ip, e[3]) if e[0] == "tlso" and e[2] is None and ip else e for e in evs]
+                lines.append(
+                    f"req {r['m']} {r['s']} {enc(r['h'])} {'~' if r['p'] is None else r['p']} {enc(r['path'])} "
+                    f"{'~' if r['hdrs'] is None else enc_pairs(r['hdrs'])} {'~' if r['body'] is None else r['body']} "
+                    f"{'F' if r['retries'] is False else r['retries']} {int(r['close'])}")
+                out.append(" ".join(self.show(ev) for ev in evs) + " => " + outcome)
+                self.oracle(case, i, r, evs, socks, outcome, exc, res)
+                res.bump("outcome:" + outcome)
+                res.bump(f"dest:{r['s']} tunnel={int(tunnel_expected(cfg, r))}")
+        finally:
+            pm.clear()
         return lines, out
 
     @staticmethod
@@ -397,6 +730,11 @@ class C09(Prop):
                                         f"{' (forwarding opted in)' if cfg['fwd'] else ''}: {what}",
                                         case=case, detail={"events": [self.show(e) for e in log], "outcome": outcome}))
 
+        script = case["script"]
+
+        def script_at(sid):
+            return script[sid] if sid < len(script) else [True, 200, True]
+
         user_names = {k.lower() for k, _ in (r["hdrs"] if r["hdrs"] is not None else (cfg["mh"] or []))}
         proxy_names = {k.lower() for k, _ in cfg["ph"]} - user_names
         opened = []
@@ -412,16 +750,28 @@ class C09(Prop):
                 if not want_tunnel:
                     fail("routing:unexpected-connect", f"CONNECT {ev[2]} although the request is to be forwarded")
                 # a CONNECT tunnel to exactly the URL's host:port (IPv6 bracketed)
-                if ev[2] != target:
+                if ev[2].lower() != target:
                     fail("connect-target", f"CONNECT names {ev[2]!r}, the URL's host:port is {target!r}")
             elif k == "tlso":
                 # inside the tunnel TLS is verified against the destination's name
                 rec = f.get("origin_tls") or {}
                 if (ev[2] or "").rstrip(".") != exp_name(r):
                     fail("inner-tls-name", f"TLS inside the tunnel uses the name {ev[2]!r}, destination is {exp_name(r)!r}")
+                elif rec.get("real"):
+                    # real TLS: verification against the destination's name shows in OpenSSL's verdict — the
+                    # good certificate names exactly the destinations, the bad one a foreign name
+                    if rec.get("ok") != bool(script_at(sid)[2]):
+                        fail("inner-tls-verdict", f"handshake inside the tunnel {'succeeded' if rec.get('ok') else 'failed'} "
+                             f"although the origin's certificate is {'valid for' if script_at(sid)[2] else 'not valid for'} "
+                             f"{exp_name(r)!r}")
                 elif rec.get("verify_mode") != ssl.CERT_REQUIRED or not (rec.get("check_hostname") is True):
                     fail("inner-tls-unverified", f"TLS inside the tunnel is not verified against the name "
                          f"(verify_mode={rec.get('verify_mode')}, check_hostname={rec.get('check_hostname')})")
+            elif k == "tlsp":
+                rec = f.get("proxy_tls") or {}
+                if rec.get("real") and rec.get("ok") != bool(script_at(sid)[0]):
+                    fail("proxy-tls-verdict", f"handshake with the proxy {'succeeded' if rec.get('ok') else 'failed'} although "
+                         f"its certificate is {'trusted' if script_at(sid)[0] else 'from a foreign CA'}")
             elif k == "req":
                 in_tunnel, tgt, hdrs = ev[2], ev[4], ev[5]
                 names = {n.lower() for n, _ in hdrs}
@@ -429,11 +779,9 @@ class C09(Prop):
                     fail("retunnel:closed-socket-reused", f"request on socket {sid} after the server closed it")
                 if want_tunnel:
                     if not in_tunnel:
-                        fail("routing:https-not-tunnelled",
-                             f"request {ev[3]} {tgt} reached {'the proxy' if f.get('req_index') is not None else 'a server'} "
-                             "outside a CONNECT tunnel")
+                        fail("routing:https-not-tunnelled", f"request {ev[3]} {tgt} was sent outside a CONNECT tunnel")
                     else:
-                        if f.get("connect") != target or f.get("connect_status") != 200:
+                        if (f.get("connect") or "").lower() != target or f.get("connect_status") != 200:
                             fail("connect-target", f"request carried by a tunnel to {f.get('connect')!r} "
                                  f"(status {f.get('connect_status')}), the URL's host:port is {target!r}")
                         rec = f.get("origin_tls")
